@@ -526,14 +526,14 @@ def rule_fixed_flag(chk, prog):
 def run(chk):
     prog = chk.load()
     cg = CallGraph(prog)
-    rule_end_segments(chk, prog)
-    rule_fixed_stays(chk, prog)
-    rule_no_growth(chk, prog, cg)
-    rule_limits_narrow(chk, prog)
-    rule_region_closure(chk, prog)
-    rule_pairwise_stateless(chk, prog)
-    rule_settings_dirty(chk, prog)
-    rule_fixed_flag(chk, prog)
+    chk.guard(rule_end_segments, chk, prog)
+    chk.guard(rule_fixed_stays, chk, prog)
+    chk.guard(rule_no_growth, chk, prog, cg)
+    chk.guard(rule_limits_narrow, chk, prog)
+    chk.guard(rule_region_closure, chk, prog)
+    chk.guard(rule_pairwise_stateless, chk, prog)
+    chk.guard(rule_settings_dirty, chk, prog)
+    chk.guard(rule_fixed_flag, chk, prog)
     from ..rules import mirrors
     r = chk.rule("MIRROR", "NudgingShiftSegment::lowC/highC and the scan-line helpers firstObstacleAbove/Below, markShiftSegmentsAbove/Below "
                  "stay exact mirror images (tables/mirrors.json)", floor=3)
